@@ -13,9 +13,18 @@ fn main() {
     }
     install_panic_hook();
     let prop = args[1].to_uppercase();
+    let guarded = |tier: Tier| -> i32 {
+        match std::panic::catch_unwind(|| props::run(&prop, tier)) {
+            Ok(c) => c,
+            Err(_) => {
+                eprintln!("{}: the harness itself panicked (see message above): inconclusive", prop);
+                2
+            }
+        }
+    };
     let code = match args[2].as_str() {
-        "quick" => props::run(&prop, Tier::Quick),
-        "thorough" => props::run(&prop, Tier::Thorough),
+        "quick" => guarded(Tier::Quick),
+        "thorough" => guarded(Tier::Thorough),
         "--replay" => {
             if args.len() < 4 {
                 usage();
